@@ -3,10 +3,10 @@ import DhcpProofs.Lemmas.V4Opts
 namespace Dhcp.V4
 open Dhcp List
 
-theorem optsLoop'_flatMap (val : UInt8 → Bytes) (rest : Bytes) (e : Bool) :
+theorem optsLoop'_flatMap (val : UInt8 → Bytes) (rest : Bytes) :
     ∀ (cs : List UInt8) (o : Opts), (∀ c ∈ cs, c ≠ 0 ∧ c ≠ 255) →
-      optsLoop' ⟨cs.flatMap (fun c => chunks c (val c)) ++ rest, e⟩ o
-        = optsLoop' ⟨rest, e⟩ (cs.foldl (fun o c => o.app c (val c)) o) := by
+      optsLoop' ⟨cs.flatMap (fun c => chunks c (val c)) ++ rest, false⟩ o
+        = optsLoop' ⟨rest, false⟩ (cs.foldl (fun o c => o.app c (val c)) o) := by
   intro cs
   induction cs with
   | nil => intro o _; simp
@@ -116,10 +116,10 @@ theorem marshalCodes_nodup (o : Opts) : (marshalCodes o).Nodup := by
 
 /-- Reading back `marshalOpts o ++ [End] ++ tail` yields exactly the entries of
 `o` with codes other than Pad/End. -/
-theorem optsLoop'_marshal (o : Opts) (tail : Bytes) (e : Bool) :
-    ∃ o', optsLoop' ⟨marshalOpts o ++ (255 :: tail), e⟩ Opts.empty = some (o', true) ∧
+theorem optsLoop'_marshal (o : Opts) (tail : Bytes) :
+    ∃ o', optsLoop' ⟨marshalOpts o ++ (255 :: tail), false⟩ Opts.empty = some (o', true) ∧
       ∀ k, o'.f k = if k ≠ 0 ∧ k ≠ 255 then o.f k else none := by
-  rw [marshalOpts_eq, optsLoop'_flatMap (fun c => (o.f c).getD []) _ e (marshalCodes o) Opts.empty
+  rw [marshalOpts_eq, optsLoop'_flatMap (fun c => (o.f c).getD []) _ (marshalCodes o) Opts.empty
     (fun c hc => ((mem_marshalCodes o c).mp hc).2)]
   rw [optsLoop'_end]
   refine ⟨_, rfl, ?_⟩
